@@ -2065,3 +2065,39 @@ Section Cover.
     exists r0, k0, w', k', r'. repeat split; try assumption; apply S'.
   Qed.
 End Cover.
+
+(* ================================================================== the pipeline: AOp o; ARead (whole queue) *)
+Require Import WD.Model.DelayQueue WD.Model.Grouping WD.Model.Pipeline.
+
+Definition buf_ready (b : st * rst) : Prop :=
+  batch (snd b) = [] /\ grouped (snd b) = [] /\ deleted_self (snd b) = false.
+
+Lemma pstep_read_all P s r' k' evs : buf_ready (p_buf s) ->
+  read_batch (pc_reader P) (w_fs (p_world s)) (p_r s, drainq (p_k s), []) (k_queue (p_k s)) = Done (r', k', evs) ->
+  exists s' ob, pstep P s (ARead (length (k_queue (p_k s)))) = Done (s', ob) /\
+    p_world s' = p_world s /\ p_k s' = k' /\ p_r s' = r' /\ p_out s' = p_out s.
+Proof.
+  intros (B1 & B2 & B3) Hrd. unfold pstep. rewrite B3, firstn_all, skipn_all.
+  unfold drainq, kset_queue in Hrd. rewrite Hrd.
+  destruct (number (pc_reader P) (p_next s) evs) as [nevs tbl].
+  destruct (p_buf s) as [d rs] eqn:Eb. cbn [snd] in B1, B2, B3. unfold gstep. rewrite B1, B2, B3.
+  eexists _, _. split; [reflexivity|]. cbn. auto.
+Qed.
+
+Theorem pipe_cover_step P s o w' :
+  let C := pc_reader P in
+  c_faults C = [] -> mask_ok C -> RSync C (p_world s) (p_k s) (p_r s) -> buf_ready (p_buf s) ->
+  covered_op C (p_world s) o -> apply_op (p_world s) o = Some w' ->
+  exists s' obs,
+    prun P s [AOp o; ARead (length (k_queue (kernel_op (p_k s) (w_fs (p_world s)) o)))] [] = Done (s', obs) /\
+    p_world s' = w' /\ RSync C (p_world s') (p_k s') (p_r s') /\ Cover C (w_fs (p_world s')) (p_k s') (p_r s').
+Proof.
+  intros C Hf M S B Ho Ha.
+  destruct (cover_step C Hf (p_world s) (p_k s) (p_r s) o w' M S Ho Ha) as (r' & k' & evs & Hrd & S').
+  cbn [prun]. unfold pstep at 1. rewrite Ha.
+  set (s1 := {| p_world := w'; p_k := kernel_op (p_k s) (w_fs (p_world s)) o; p_r := p_r s; p_buf := p_buf s;
+                p_tbl := p_tbl s; p_next := p_next s; p_out := p_out s; p_stopped := p_stopped s |}).
+  destruct (pstep_read_all P s1 r' k' evs B Hrd) as (s2 & ob & Hst & E1 & E2 & E3 & _).
+  change (k_queue (kernel_op (p_k s) (w_fs (p_world s)) o)) with (k_queue (p_k s1)). rewrite Hst.
+  eexists _, _. split; [reflexivity|]. rewrite E1, E2, E3. split; [reflexivity|]. split; [exact S' | apply S'].
+Qed.
